@@ -103,28 +103,34 @@ Definition feed_fin (s2 : m_state m2) (outs : list B) (f1 : fin) : m_state m2 * 
 
 (* Note: when m1 leaves with Complete/Fail but m2 stays silent ([Cont]) the
    composite has no live source any more; it simply stays silent. *)
+Definition compose_start : m_state m2 * list C * fin :=
+  feed_fin (m_init m2) (fst (m_pre m1)) (snd (m_pre m1)).
+
 Definition compose : mealy A C :=
-  let '(o1, f1) := m_pre m1 in
-  let '(o2, f2) := m_pre m2 in
   {| m_state := m_state m1 * m_state m2 * bool;       (* bool: m1 still subscribed *)
      m_init :=
-       (if live f2 then let '(s2, _, _) := feed_fin (m_init m2) o1 f1 in (m_init m1, s2, live f1)
+       (if live (snd (m_pre m2))
+        then (m_init m1, fst (fst compose_start), live (snd (m_pre m1)))
         else (m_init m1, m_init m2, false));
      m_pre :=
-       (if live f2 then let '(_, o, f) := feed_fin (m_init m2) o1 f1 in (o2 ++ o, f)
-        else (o2, f2));
-     m_next := fun '(s1, s2, on) x =>
+       (if live (snd (m_pre m2))
+        then (fst (m_pre m2) ++ snd (fst compose_start), snd compose_start)
+        else m_pre m2);
+     m_next := fun st x =>
+       let '(s1, s2, on) := st in
        if on then
          let '(s1', o1, f1) := m_next m1 s1 x in
          let '(s2', o, f) := feed_fin s2 o1 f1 in
          ((s1', s2', live f1), o, f)
-       else ((s1, s2, on), [], Cont);
-     m_err := fun '(s1, s2, on) e =>
+       else (st, [], Cont);
+     m_err := fun st e =>
+       let '(s1, s2, on) := st in
        if on then
          let '(o1, f1) := m_err m1 s1 e in
          let '(_, o, f) := feed_fin s2 o1 f1 in (o, f)
        else ([], Cont);
-     m_done := fun '(s1, s2, on) =>
+     m_done := fun st =>
+       let '(s1, s2, on) := st in
        if on then
          let '(o1, f1) := m_done m1 s1 in
          let '(_, o, f) := feed_fin s2 o1 f1 in (o, f)
